@@ -7,10 +7,11 @@ from parglare.tables import LALR, SLR
 
 from vlib.monitors.common import (BudgetExceeded, KIND_NAME, TooDeep, build, exc_str, node_to_spec,
                                   outcome)
-from vlib.monitors.glrmon import TERMSETS, check_rendering, layout_variants, used_terms
+from vlib.monitors.glrmon import (TERMSETS, check_rendering, layout_variants, list_input_setup, used_terms,
+                                  with_layout_rule)
 from vlib.scope import grammar_text, inputs, prod_index_map
 from vlib.spec import sppf
-from vlib.spec.cfg import CFG, check_derivation, lit, tree_shape
+from vlib.spec.cfg import CFG, check_derivation, lit, lit_ic, tree_shape
 
 STRATEGIES = ((False, False), (True, False), (False, True), (True, True))
 
@@ -73,7 +74,7 @@ def lr_grammar_worker(args):
     tier = params["tier"]
     ts = TERMSETS[params.get("termset", "disjoint")]
     if ts is None:
-        terms = {t: lit(t) for t in (used_terms(prods) or ["a"])}
+        terms = {t: (lit_ic(t) if params.get("ignore_case") else lit(t)) for t in (used_terms(prods) or ["a"])}
         text = grammar_text(prods)
     else:
         ut = used_terms(prods)
@@ -81,7 +82,18 @@ def lr_grammar_worker(args):
             return {"evaluations": 0, "nontrivial": 0, "violations": [], "samples": [], "counters": {}}
         terms = {t: ts[t][0] for t in ut}
         text = grammar_text(prods, {t: ts[t][1] for t in ut})
-    cfg = CFG(prods, terms)
+    ws = "\n\r\t "
+    layout_rule = bool(params.get("layout_rule"))
+    if layout_rule:
+        text, ws = with_layout_rule(text)
+    list_input = bool(params.get("list_input"))
+    recognizers = None
+    pkw = {}
+    if list_input:
+        terms, text, recognizers = list_input_setup(prods)
+        ws = ""
+        pkw["ws"] = None
+    cfg = CFG(prods, terms, ws=ws)
     cyclic = cfg.is_cyclic()
     pmap = prod_index_map(prods)
     res = {"evaluations": 0, "nontrivial": 0, "violations": [], "samples": [], "counters": {}}
@@ -95,25 +107,36 @@ def lr_grammar_worker(args):
         key = {"grammar": text, "tables": KIND_NAME[kind], "input": w}
         if ts is not None:
             key["termset"] = params["termset"]
+        if params.get("ignore_case"):
+            key["ignore_case"] = True
+        if layout_rule:
+            key["layout"] = "LAYOUT rule"
+        if list_input:
+            key["input_kind"] = "list"
         key.update(extra)
         res["violations"].append((monitor, key, detail,
                                   {"family": "lr", "pid": pid, "prods": prods, "params": params}))
 
     try:
-        g = Grammar.from_string(text)
+        if list_input:
+            g = Grammar.from_string(text, recognizers=recognizers)
+        else:
+            g = Grammar.from_string(text, ignore_case=True) if params.get("ignore_case") else Grammar.from_string(text)
     except Exception as e:
         res["violations"].append(("grammar.from_string", {"grammar": text}, exc_str(e)))
         return res
     alphabet = params.get("alphabet", "ab")
     texts = [(w, vname, txt) for w in inputs(alphabet, params["max_len"])
-             for vname, txt in layout_variants(w, tier, params["layout_len"])]
+             for vname, txt in ([("list", list(w))] if list_input else
+                                layout_variants(w, tier, params["layout_len"], layout_rule))]
     oracle = {}
 
     def orc(txt):
-        o = oracle.get(txt)
+        k = tuple(txt) if isinstance(txt, list) else txt
+        o = oracle.get(k)
         if o is None:
             L = cfg.lattice(txt)
-            o = oracle[txt] = (L, L.earley())
+            o = oracle[k] = (L, L.earley())
         return o
 
     for kind in (LALR, SLR):
@@ -122,7 +145,7 @@ def lr_grammar_worker(args):
         glr = None
         if pid in ("C04", "C08"):
             try:
-                glr = build(GLRParser, g, tables=kind)
+                glr = build(GLRParser, g, tables=kind, **pkw)
             except BudgetExceeded:
                 bump("skipped_construction_budget")
                 continue
@@ -134,7 +157,7 @@ def lr_grammar_worker(args):
                 continue
             try:
                 lr = build(Parser, g, tables=kind, prefer_shifts=ps, prefer_shifts_over_empty=pse,
-                           build_tree=True)
+                           build_tree=True, **pkw)
             except (SRConflicts, RRConflicts):
                 bump("lr_construction_conflicts")
                 continue
@@ -170,7 +193,7 @@ def lr_grammar_worker(args):
                     c04_case(st, val, det, cfg, L, ear, cyclic, pmap, glr, txt, viol, kind, strat, bump)
                 elif pid == "C08":
                     if st == "ok":
-                        why = positions_report(val, txt)
+                        why = positions_report(val, txt, ws=cfg.ws)
                         if why:
                             viol("lr.tree_positions_faithful", kind, txt, why, strategy=strat)
                         else:
@@ -261,11 +284,13 @@ def c08_actions_see_same_positions(g, kind, ps, pse, tree, txt, viol, strat):
             return value
         return act
     actions = {}
+    # (symbols of the LAYOUT rule of the LAYOUT-rule configuration are not part of the tree)
+    layout_syms = ("LAYOUT", "LayoutItem", "LayoutItem_0", "LayoutItem_1", "WS", "HASH")
     for nt in g.nonterminals.values():
-        if nt.name not in ("S'",):
+        if nt.name not in ("S'",) + layout_syms:
             actions[nt.name] = mk(nt.name)
     for t in g.terminals.values():
-        if t.name not in ("STOP", "EMPTY"):
+        if t.name not in ("STOP", "EMPTY") + layout_syms:
             actions[t.name] = mkt(t.name)
     old = {s: s.action for s in list(g.nonterminals.values()) + list(g.terminals.values())}
     old_ga = {s: getattr(s, "grammar_action", None) for s in old}
@@ -303,7 +328,7 @@ def c08_glr(glr, cfg, texts, orc, viol, kind, bump, res, only):
             n = 1
         for i in range(min(n, 60)):
             try:
-                why = positions_report(forest.get_tree(i), txt)
+                why = positions_report(forest.get_tree(i), txt, ws=cfg.ws)
             except parglare.exceptions.LoopError:
                 break
             if why:
